@@ -202,13 +202,20 @@ def _has_lookup_evidence(cx, site, x, changers, depth=2):
     ok, _ = g.guarded(site.at, lambda lits: any(found(l) for l in lits), kb)
     if ok:
         return True, "dominating successful lookup"
-    if x[0] == "param" and depth > 0:
-        cs = callers_of(cx, fn)
+    has_param = any(y[0] == "param" and isinstance(y[1], int) for y in walk(x))
+    if has_param and depth > 0 and not fn.is_closure:
+        # the id is (a field of) a parameter: the lookup may have been done by the caller (a dispatcher that drops
+        # messages of untracked senders before handing them to the handlers) -- provided nothing between the entry of
+        # this function and the unwrap changes the membership
+        if not g.guarded(site.at, lambda lits: False, kb, start_held=True)[0]:
+            return False, None
+        cs = [c for c in callers_of(cx, fn) if c.fn.crate == "raft"]
         if cs:
+            from ..pat import subst_params
             res = []
             for c in cs:
                 args = call_args(cx, c)
-                ax = args[x[1] - 1]
+                ax = subst_params(x, list(args))
                 r, why = _has_lookup_evidence(cx, c, ax, changers, depth - 1)
                 res.append(r)
             if all(res):
@@ -311,7 +318,8 @@ def scan_bounds(cx):
             cx.check((len(snap_alt) == 1 and len(app_alt) == 1 and len(alts) == 2) or viamax, key + ":lo",
                      "a scan that starts at applied + 1 starts at the pending snapshot's first index instead when one is pending (found %s)" % show(lo)[:200], c)
         else:
-            cx.check(uses_commit, key + ":lo", "the scan starts at applied + 1 or after the old commit index (found %s)" % show(lo)[:120], c)
+            plus1 = lo[0] == "bin" and lo[1] == "Add" and ("int", 1) in lo[2:4] and any(is_f(x, "RaftLog.committed") for x in lo[2:4])
+            cx.check(uses_commit and plus1, key + ":lo", "the scan starts at applied + 1 or right AFTER the old commit index, at committed + 1: the entry at the old commit index itself may already be compacted away (found %s)" % show(lo)[:120], c)
         n += 1
     cx.check(n >= 2, "floor", "scan call sites were found")
 
